@@ -166,7 +166,6 @@ def table : List (String × String × Option (List AppState)) := [
   ("MafftApp", "supports_nucleotide", none),
   ("MafftApp", "supports_protein", none),
   ("Muscle5App", "align", none),
-  ("Muscle5App", "clean_up", none),
   ("Muscle5App", "run", none),
   ("Muscle5App", "set_iterations", some [created]),
   ("Muscle5App", "set_thread_number", some [created]),
